@@ -1438,3 +1438,590 @@ def r4b(cx):
 
 
 RS.explanation += ' The separator joining the fields of a quoted $@ is quoted (R4b).'
+
+
+# ---------------------------------------------------------------------------------------
+# added for the seeded defect C04-s7 (Pattern::rfind stepped with str::get and stopped at a multi-byte character)
+MATCHERS = ('yash_fnmatch::Pattern::is_match', 'yash_fnmatch::Pattern::find', 'yash_fnmatch::Pattern::rfind')
+REGEX_SEARCHES = [re.compile(r'^regex::regex::(string|bytes)::Regex::(find|find_at|is_match|is_match_at|shortest_match|shortest_match_at|'
+                             r'captures|captures_at)$'),
+                  'yash_fnmatch::Pattern::find', 'yash_fnmatch::Pattern::rfind', 'yash_fnmatch::Pattern::is_match']
+TEXT_LEN = ['core::str::<impl str>::len', 'alloc::string::String::len']
+TEXT_EMPTY = ['core::str::<impl str>::is_empty', 'alloc::string::String::is_empty']
+# str operations whose failure means "this byte offset is past the end OR inside a multi-byte character"
+BOUNDARY_DEPENDENT = [re.compile(r'^core::str::<impl str>::(get|get_mut|is_char_boundary|split_at_checked|split_at_mut_checked)$'),
+                      re.compile(r'^core::str::traits::<impl core::slice::index::SliceIndex<str> for .*>::(get|get_mut)$')]
+# Option -> Option calls that are None exactly when their first argument is None
+OPTION_PASS = [re.compile(r'^core::option::Option::<T>::(map|inspect|as_ref|as_mut|as_deref|as_deref_mut|copied|cloned|take)$'),
+               re.compile(r'Try>::branch$'), '*::Try::branch', re.compile(r'^core::option::Option::<&T>::(copied|cloned)$'),
+               re.compile(r'^core::option::Option::<&mut T>::(copied|cloned)$')]
+ITER_SEARCH = [re.compile(r'^core::iter::traits::iterator::Iterator::(find|find_map|position|next|nth|last|min|max)$'),
+               re.compile(r'Iterator>::(find|find_map|position|next|nth|last)$'),
+               re.compile(r'^core::iter::traits::double_ended::DoubleEndedIterator::(rfind|next_back|rposition)$')]
+TEXT_ITERS = [re.compile(r'^core::str::<impl str>::(char_indices|chars|bytes)$')]
+CMP_OPS = ('Lt', 'Le', 'Gt', 'Ge', 'Eq', 'Ne')
+
+
+def _loops(body):
+    """Strongly connected components of the normal-flow CFG that contain a cycle (Tarjan, iterative)."""
+    live = sorted(body.live_blocks())
+    index, low, onstack, stack, out = {}, {}, set(), [], []
+    counter = [0]
+    for root in live:
+        if root in index:
+            continue
+        work = [(root, iter(body.succ(root)))]
+        index[root] = low[root] = counter[0]
+        counter[0] += 1
+        stack.append(root)
+        onstack.add(root)
+        while work:
+            v, it = work[-1]
+            advanced = False
+            for w in it:
+                if w not in index:
+                    index[w] = low[w] = counter[0]
+                    counter[0] += 1
+                    stack.append(w)
+                    onstack.add(w)
+                    work.append((w, iter(body.succ(w))))
+                    advanced = True
+                    break
+                if w in onstack:
+                    low[v] = min(low[v], index[w])
+            if advanced:
+                continue
+            work.pop()
+            if work:
+                u = work[-1][0]
+                low[u] = min(low[u], low[v])
+            if low[v] == index[v]:
+                comp = set()
+                while True:
+                    w = stack.pop()
+                    onstack.discard(w)
+                    comp.add(w)
+                    if w == v:
+                        break
+                if len(comp) > 1 or v in body.succ(v):
+                    out.append(comp)
+    return out
+
+
+class _ExitCauses:
+    """Why can an Option / bool that decides a loop exit be None / false?  Every cause is one of
+       ('no-match', ..)     a regex search found nothing
+       ('end-of-text', ..)  a position was compared with the length of the text / the candidates up to the end ran out
+       ('boundary', ..)     a str operation failed because the offset is not a character boundary (or past the end)
+       ('unknown', ..)      anything this analysis does not understand (reported: fail closed)."""
+
+    def __init__(self, F):
+        self.F = F
+        self._du = {}
+
+    def du(self, body):
+        if id(body) not in self._du:
+            self._du[id(body)] = (body, Q.DefUse(body))
+        return self._du[id(body)][1]
+
+    # ---- does a region run a regex search (directly, or in a closure / helper it calls)?
+    def searches(self, body, blocks=None, depth=0):
+        if depth > 4:
+            return False
+        du = self.du(body)
+        for b, t in body.calls():
+            if blocks is not None and b not in blocks:
+                continue
+            if Q.callee_is(t, REGEX_SEARCHES):
+                return True
+            for a in t['a']:
+                cb = self.fn_behind(body, du, a)
+                if cb is not None and self.searches(cb, None, depth + 1):
+                    return True
+            cal = t['f'].get('def')
+            if cal in self.F.bodies and cal.startswith('yash_fnmatch::') and cal != body.fn and self.searches(self.F.bodies[cal], None, depth + 1):
+                return True
+        return False
+
+    def fn_behind(self, body, du, operand):
+        """The body of the closure / fn item an operand denotes, or None."""
+        if operand.get('fn') in self.F.bodies:
+            return self.F.bodies[operand['fn']]
+        if 'cp' not in operand and 'mv' not in operand:
+            return None
+        org = du.origin(operand)
+        for _ in range(3):
+            if org['k'] == 'ref':
+                org = du.origin_place(org['pl'])
+        if org['k'] == 'agg' and org['rv'].get('ak') == 'closure':
+            return self.F.bodies.get(org['rv'].get('def'))
+        if org['k'] == 'const' and org['o'].get('fn') in self.F.bodies:
+            return self.F.bodies[org['o']['fn']]
+        return None
+
+    # ---- Option values
+    def of_operand(self, body, operand, scc, depth=0):
+        p = Q.operand_place(operand)
+        if p is None:
+            if 'None' in str(operand.get('c')):
+                return [('unknown', 'a constant None')]
+            return []
+        return self.of_place(body, p, scc, depth)
+
+    def of_place(self, body, p, scc, depth=0):
+        proj = [e for e in p.get('p') or [] if e != '*']
+        if proj:
+            return [('unknown', 'a value read from %s' % Q.operand_name(body, self.du(body), {'cp': p}))]
+        return self.of_local(body, p['l'], scc, depth)
+
+    def of_local(self, body, l, scc, depth=0):
+        du = self.du(body)
+        if depth > 10:
+            return [('unknown', 'a chain of definitions deeper than this rule follows')]
+        defs = du.defs.get(l, [])
+        if not defs:
+            return [('unknown', 'the parameter / captured value %s' % body.local_name(l))]
+        out = []
+        for blk, idx, node in defs:
+            if idx == 't':
+                out += self.of_call(body, blk, node, scc, depth + 1)
+                continue
+            if node['k'] != 'assign' or node['lhs'].get('p'):
+                out.append(('unknown', 'a partial write to %s' % body.local_name(l)))
+                continue
+            rv = node['rv']
+            if rv['k'] == 'use':
+                out += self.of_operand(body, rv['o'], scc, depth + 1)
+            elif rv['k'] == 'ref':
+                out += self.of_place(body, rv['pl'], scc, depth + 1)
+            elif rv['k'] == 'agg' and rv.get('ak') == 'adt' and rv.get('variant') in ('None', 'Break', 'Err'):
+                out += self.of_conditions(body, blk, scc, depth + 1)
+            elif rv['k'] == 'agg' and rv.get('ak') == 'adt' and rv.get('variant') in ('Some', 'Continue', 'Ok'):
+                pass
+            else:
+                out.append(('unknown', 'a value computed by %s' % rv['k']))
+        return out
+
+    def of_conditions(self, body, blk, scc, depth):
+        """Causes for "this block (which chooses None / leaves) is executed"."""
+        du = self.du(body)
+        conds = [(org, lab, e) for org, lab, e in Q.implied_conditions(self.F, body, du, blk) if scc is None or e[0] in scc]
+        if not conds:
+            return [('unknown', 'a None chosen on paths that have no single deciding test')]
+        out = []
+        for org, lab, e in conds:
+            out += self.of_condition(body, org, lab, scc, depth + 1)
+        return out
+
+    def of_condition(self, body, org, lab, scc, depth=0):
+        du = self.du(body)
+        org, lab = Q.peel_not(du, org, lab)
+        k = org['k']
+        if k == 'discr':
+            ty = org.get('ty') or ''
+            if ty.lstrip('&').startswith(('core::option::Option<', 'core::ops::control_flow::ControlFlow<', 'core::result::Result<')):
+                return self.of_place(body, org['pl'], scc, depth + 1)
+            return [('unknown', 'a test of the variant of %s' % ty)]
+        if k == 'call':
+            t = org['t']
+            if Q.callee_is(t, [re.compile(r'^core::option::Option::<T>::(is_some|is_none|is_some_and|is_none_or)$')]):
+                return self.of_operand(body, t['a'][0], scc, depth + 1)
+            return self.of_call(body, org.get('b'), t, scc, depth + 1, as_bool=True)
+        if k == 'binop' and org['rv'].get('op') in CMP_OPS:
+            for side in (org['rv']['a'], org['rv']['b']):
+                so = du.origin(side) if ('cp' in side or 'mv' in side) else {'k': 'const'}
+                if so['k'] == 'call' and Q.callee_is(so['t'], TEXT_LEN):
+                    return [('end-of-text', 'a position compared with %s' % pp.callee(so['t']).split('::')[-1] + '()')]
+            return [('unknown', 'a comparison that does not involve the length of the text')]
+        if k == 'place' and not org['pl'].get('p') and body.locals[org['pl']['l']].get('ty') == 'bool':
+            out = []
+            for blk, idx, node in du.defs.get(org['pl']['l'], []):
+                if idx == 't':
+                    out += self.of_call(body, blk, node, scc, depth + 1, as_bool=True)
+                elif node['k'] == 'assign' and node['rv']['k'] == 'use' and 'c' in node['rv']['o']:
+                    if (str(node['rv']['o']['c']) == 'true') == lab[1]:
+                        out += self.of_conditions(body, blk, scc, depth + 1)
+                elif node['k'] == 'assign' and node['rv']['k'] in ('use', 'unop', 'binop'):
+                    o2 = du.origin({'cp': {'l': org['pl']['l']}}) if len(du.defs.get(org['pl']['l'], [])) == 1 else {'k': 'unknown'}
+                    if o2['k'] in ('call', 'binop', 'unop', 'discr'):
+                        out += self.of_condition(body, o2, lab, scc, depth + 1)
+                    else:
+                        out.append(('unknown', 'the flag %s' % body.local_name(org['pl']['l'])))
+                else:
+                    out.append(('unknown', 'the flag %s' % body.local_name(org['pl']['l'])))
+            return out or [('unknown', 'the flag %s' % body.local_name(org['pl']['l']))]
+        return [('unknown', 'a test on %s' % k)]
+
+    def of_call(self, body, blk, t, scc, depth=0, as_bool=False):
+        du = self.du(body)
+        name = pp.callee(t)
+        short = name.split('::')[-1]
+        if Q.callee_is(t, REGEX_SEARCHES):
+            return [('no-match', short)]
+        if Q.callee_is(t, BOUNDARY_DEPENDENT):
+            return [('boundary', 'str::' + short)]
+        if as_bool:
+            if Q.callee_is(t, TEXT_EMPTY):
+                return [('end-of-text', 'is_empty() of the rest of the text')]
+            return [('unknown', 'the result of %s' % name)]
+        if Q.callee_is(t, OPTION_PASS) and t['a']:
+            return self.of_operand(body, t['a'][0], scc, depth + 1)
+        if Q.callee_is(t, [re.compile(r'^core::option::Option::<T>::and_then$')]):
+            return self.of_operand(body, t['a'][0], scc, depth + 1) + self.of_return(body, t['a'][1], depth + 1)
+        if Q.callee_is(t, [re.compile(r'^core::option::Option::<T>::filter$')]):
+            return self.of_operand(body, t['a'][0], scc, depth + 1) + self.of_return(body, t['a'][1], depth + 1, as_bool=True)
+        if Q.callee_is(t, [re.compile(r'^core::bool::<impl bool>::(then|then_some)$')]):
+            c = t['a'][0]
+            if 'cp' not in c and 'mv' not in c:
+                return [('unknown', 'a constant condition')]
+            return self.of_condition(body, du.origin(c), ('bool', False), scc, depth + 1)
+        if Q.callee_is(t, ITER_SEARCH) and t['a']:
+            out = self.of_iterator(body, t['a'][0], depth + 1)
+            if short == 'find_map' and len(t['a']) > 1:
+                # the closure's None only skips a candidate; its causes are the search's own
+                out += [c for c in self.of_return(body, t['a'][1], depth + 1) if c[0] != 'no-match']
+            return out
+        cal = t['f'].get('def')
+        if cal in self.F.bodies and cal.startswith('yash_fnmatch::') and cal != body.fn:
+            hb = self.F.bodies[cal]
+            return self.of_local(hb, 0, None, depth + 1)
+        return [('unknown', 'the result of %s' % name)]
+
+    def of_return(self, body, operand, depth, as_bool=False):
+        cb = self.fn_behind(body, self.du(body), operand)
+        if cb is None:
+            return [('unknown', 'a function value this rule cannot resolve')]
+        if as_bool:
+            return self.of_condition(cb, {'k': 'place', 'pl': {'l': 0}}, ('bool', False), None, depth + 1)
+        return self.of_local(cb, 0, None, depth + 1)
+
+    def of_iterator(self, body, operand, depth):
+        """None of find/position/next over this iterator = the candidates ran out: up to where do they go?"""
+        du = self.du(body)
+        org = du.origin(operand) if ('cp' in operand or 'mv' in operand) else {'k': 'const'}
+        for _ in range(6):
+            if org['k'] == 'ref':
+                org = du.origin_place(org['pl'])
+            elif org['k'] == 'call' and Q.callee_is(org['t'], [re.compile(r'IntoIterator>::into_iter$'), '*::IntoIterator::into_iter',
+                                                               re.compile(r'Iterator::(by_ref|skip|skip_while|filter|map|rev|peekable|enumerate)$')]):
+                a0 = org['t']['a'][0]
+                org = du.origin(a0) if ('cp' in a0 or 'mv' in a0) else {'k': 'const'}
+            else:
+                break
+        hi = None
+        if org['k'] == 'call' and Q.callee_is(org['t'], [re.compile(r'^core::ops::range::RangeInclusive::<Idx>::new$')]):
+            hi = org['t']['a'][1]
+        elif org['k'] == 'agg' and str(org['rv'].get('adt')).startswith('core::ops::range::Range'):
+            fields = org['rv'].get('fields') or []
+            ops = org['rv'].get('ops') or []
+            if 'end' in fields:
+                hi = ops[fields.index('end')]
+            elif len(ops) == 2:
+                hi = ops[1]
+            else:
+                return [('unknown', 'the exhaustion of an unbounded range')]
+        elif org['k'] == 'call' and Q.callee_is(org['t'], TEXT_ITERS):
+            return [('end-of-text', 'the characters of the text ran out')]
+        if hi is not None:
+            ho = du.origin(hi) if ('cp' in hi or 'mv' in hi) else {'k': 'const'}
+            if ho['k'] == 'call' and Q.callee_is(ho['t'], TEXT_LEN):
+                return [('end-of-text', 'the candidate positions up to len() ran out')]
+            return [('unknown', 'the exhaustion of a range of positions whose upper bound is not the length of the text')]
+        return [('unknown', 'the exhaustion of an iterator this rule cannot bound')]
+
+
+@RS.rule('C04.R7', 'K-GUARD', 'Pattern::rfind (shortest suffix, ${v%pat}) retries the regex from later and later positions: the retry loop ends only '
+         'because the regex found no further match or the position passed the end of the text - never because a byte offset failed a '
+         'character-boundary test (str::get, is_char_boundary, ..), which would stop the search at the first multi-byte character')
+def r7(cx):
+    F = cx.F
+    EC = _ExitCauses(F)
+    n_loops = 0
+    per_fn = {}
+    for fn in MATCHERS:
+        if fn not in F.bodies and not [b for b in F.logical(fn)]:
+            cx.require(fn != 'yash_fnmatch::Pattern::rfind', 'yash_fnmatch::Pattern::rfind not found')
+            continue
+        body = F.inlined(F.main_body(fn))
+        cx.fn(body.fn)
+        du = EC.du(body)
+        per_fn[fn] = 0
+        for scc in _loops(body):
+            if not EC.searches(body, scc):
+                continue
+            n_loops += 1
+            per_fn[fn] += 1
+            exits = [(u, v) for u in sorted(scc) for v in body.succ(u) if v not in scc]
+            causes = []
+            for u, v in exits:
+                ec = Q.edge_condition(F, body, du, u)
+                if ec is None:
+                    causes.append(((u, v), ('unknown', 'an exit that is not a two-way test')))
+                    continue
+                org, labels = ec
+                labs = labels.get(v) or [('else',)]
+                if org['k'] == 'discr':
+                    cs = EC.of_condition(body, org, labs[0], scc)
+                elif labs[0][0] == 'bool':
+                    cs = EC.of_condition(body, org, labs[0], scc)
+                else:
+                    cs = [('unknown', 'a test on %s' % org['k'])]
+                causes += [((u, v), c) for c in cs]
+            kinds = sorted({c[0] for e, c in causes})
+            cx.site('%s: retry loop (%d blocks, header near %s) has %d exit edge(s); causes: %s'
+                    % (fn.split('::')[-1], len(scc), body.loc(body.term(min(scc))), len(exits),
+                       sorted({'%s (%s)' % c for e, c in causes})))
+            cx.cellcount(len(causes))
+            if 'no-match' not in kinds:
+                cx.violation(fn, 'retry-loop-ignores-the-search', 'no exit of the retry loop depends on the result of the regex search: the loop '
+                             'cannot stop at the last match', loc=body.loc(body.term(min(scc))))
+            seen = set()
+            for (u, v), (kind, what) in causes:
+                if kind == 'boundary' and ('b', what) not in seen:
+                    seen.add(('b', what))
+                    cx.violation(fn, 'retry-ends-on-char-boundary-failure:%s' % what,
+                                 'the retry loop also ends when %s fails, i.e. when the next byte offset lies inside a multi-byte character: '
+                                 'the search for a later match stops at the first match that starts with a non-ASCII character, so '
+                                 '${v%%pattern} removes a longer suffix than the shortest one (v=aéxéy, ${v%%é*} gives a instead of aéx)'
+                                 % what, loc=body.loc(body.term(u)), path=Q.render_path(body, [u, v]))
+                elif kind == 'unknown' and ('u', what) not in seen:
+                    seen.add(('u', what))
+                    cx.violation(fn, 'retry-exit-cause-unrecognised:%s' % re.sub(r'\s+', ' ', what)[:80],
+                                 'the retry loop can end because of %s: this is neither "the regex found no further match" nor "the '
+                                 'position passed the end of the text", the only two reasons for which the last match has been found'
+                                 % what, loc=body.loc(body.term(u)), path=Q.render_path(body, [u, v]))
+    if per_fn.get('yash_fnmatch::Pattern::rfind', 0) == 0:
+        b = F.main_body('yash_fnmatch::Pattern::rfind')
+        cx.site('Pattern::rfind: no loop that runs the regex again')
+        cx.violation('yash_fnmatch::Pattern::rfind', 'no-retry-loop', 'Pattern::rfind no longer searches again from later positions: the regex '
+                     'engine only reports the leftmost match, so the LAST match (the shortest suffix for ${v%pat}) is not found',
+                     loc=b.loc(b.d))
+    cx.floor(n_loops, 1, 'retry loops around a regex search in Pattern::{is_match, find, rfind}')
+
+
+RS.explanation += (' The retry loop of Pattern::rfind ends only on "no further match" or "end of text", never on a failed character-boundary '
+                   'test (R7).')
+
+
+# ---------------------------------------------------------------------------------------
+# added for the seeded defect C04-s8 (the scanner of `[. .]` `[= =]` `[: :]` swallowed the character after a non-closing delimiter)
+from rules.C01 import Interp, Undecidable, V, is_variant, freeze      # the concrete HIR interpreter (shared with rules/C05.py)
+
+OPT_SOME = 'core::option::Option::Some'
+OPT_NONE = 'core::option::Option::None'
+BRACKET_ATOM = 'yash_fnmatch::ast::BracketAtom'
+INNER_KINDS = {'.': 'CollatingSymbol', '=': 'EquivalenceClass', ':': 'CharClass'}
+UNIT = ('T', ())
+
+
+class _PcIter:
+    """The `I: Iterator<Item = PatternChar>` handed to the parser: a position in a fixed sequence."""
+
+    def __init__(self, items, pos=0):
+        self.items = items
+        self.pos = pos
+
+    def next(self):
+        if self.pos >= len(self.items):
+            return V(OPT_NONE)
+        self.pos += 1
+        return V(OPT_SOME, self.items[self.pos - 1])
+
+    def clone(self):
+        return _PcIter(self.items, self.pos)
+
+
+class _ScanInterp(Interp):
+    """rules/C01.Interp plus: calls through a function value (`let new: fn(String) -> Self = BracketAtom::CharClass; new(v)`),
+    calls of other functions of yash-fnmatch (evaluated from their HIR), and the few Vec / String / slice / iterator
+    operations a character scanner uses. Anything else is Undecidable (exit 2, fail closed)."""
+
+    def __init__(self, F, fuel=20000):
+        Interp.__init__(self, F, self._extern, fuel)
+
+    def ev(self, n, env):
+        if isinstance(n, dict) and n.get('k') == 'call' and not (n.get('def') or n.get('decl') or n.get('ctor')) \
+                and isinstance(n.get('f'), dict):
+            f = self.ev(n['f'], env)
+            args = [self.ev(x, env) for x in n['a']]
+            return self._apply(f, args)
+        return Interp.ev(self, n, env)
+
+    def assign(self, lhs, v, env):
+        # `*i = j` where i: &mut I is the caller's iterator: the caller must see the new position
+        tgt = self.strip(lhs)
+        if isinstance(tgt, dict) and tgt.get('k') == 'local' and isinstance(env.get(tgt['id']), _PcIter) and isinstance(v, _PcIter) \
+                and tgt is not lhs:
+            cur = env[tgt['id']]
+            cur.items, cur.pos = v.items, v.pos
+            return
+        return Interp.assign(self, lhs, v, env)
+
+    def _apply(self, f, args):
+        if is_variant(f) and not f[2]:
+            return V(f[1], *args)                      # a tuple-variant constructor used as a function
+        if isinstance(f, tuple) and f and f[0] == 'F':
+            return self.call_fn(f[1], args)
+        if isinstance(f, tuple) and f and f[0] == 'C':
+            return self.call_closure(f, args)
+        raise Undecidable('call through the value %r' % (f,))
+
+    def _extern(self, name, recv, args, node):
+        name = name or ''
+        last = name.split('::')[-1]
+        if name.startswith('path:'):
+            p = name[5:]
+            if p in self.F.hir:
+                return ('F', p)
+            raise Undecidable('path %s' % p)
+        if isinstance(recv, _PcIter):
+            if last == 'next' and not args:
+                return recv.next()
+            if last in ('clone', 'by_ref') and not args:
+                return recv.clone() if last == 'clone' else recv
+        if recv is None and len(args) == 1 and isinstance(args[0], _PcIter) and last in ('into_iter', 'by_ref'):
+            return args[0]
+        if name in ('alloc::string::String::new', 'alloc::vec::Vec::<T>::new') and recv is None:
+            return []
+        if isinstance(recv, list):
+            if name in ('alloc::string::String::push', 'alloc::vec::Vec::<T, A>::push') and len(args) == 1:
+                recv.append(args[0])
+                return UNIT
+            if name == 'alloc::string::String::push_str' and len(args) == 1 and isinstance(args[0], (list, str)):
+                recv.extend(list(args[0]))
+                return UNIT
+            if last == 'ends_with' and len(args) == 1 and isinstance(args[0], list):
+                k = len(args[0])
+                return k <= len(recv) and freeze(recv[len(recv) - k:]) == freeze(args[0])
+            if last == 'starts_with' and len(args) == 1 and isinstance(args[0], list):
+                return freeze(recv[:len(args[0])]) == freeze(args[0])
+            if last == 'truncate' and len(args) == 1 and isinstance(args[0], int):
+                del recv[args[0]:]
+                return UNIT
+            if last == 'pop' and not args:
+                return V(OPT_SOME, recv.pop()) if recv else V(OPT_NONE)
+            if last in ('last', 'last_mut') and not args:
+                return V(OPT_SOME, recv[-1]) if recv else V(OPT_NONE)
+            if last == 'clear' and not args:
+                del recv[:]
+                return UNIT
+            if last == 'len' and not args:
+                return len(recv)
+            if last == 'is_empty' and not args:
+                return not recv
+            if last in ('into_iter', 'iter', 'drain') and len(args) <= 1:
+                return ('I', list(recv))
+            if last in ('as_slice', 'as_str', 'deref', 'as_ref', 'clone', 'to_owned', 'to_vec') and not args:
+                return list(recv) if last in ('clone', 'to_owned', 'to_vec') else recv
+        if isinstance(recv, tuple) and len(recv) == 2 and recv[0] == 'I':
+            if last == 'map' and len(args) == 1:
+                return ('I', [self._apply(args[0], [x]) for x in recv[1]])
+            if last == 'collect' and not args:
+                return list(recv[1])
+        if recv is None and last in ('from_iter', 'from') and len(args) == 1 and isinstance(args[0], tuple) and args[0][:1] == ('I',):
+            return list(args[0][1])
+        if name in self.F.hir and (name.startswith('yash_fnmatch::') or name.startswith('<yash_fnmatch::')):
+            return self.call_fn(name, ([recv] if recv is not None else []) + list(args))
+        raise Undecidable('call of %s is not modelled by the scanner evaluation' % name)
+
+
+def _pc(kind, c):
+    return V(NORMAL if kind == 'N' else LITERAL, c)
+
+
+def _inner_reference(word):
+    """POSIX XBD 9.3.5 items 4-6 as yash reads them: after `[` + opener, the expression closes at the FIRST unquoted
+    opener character that is immediately followed by an unquoted `]`; everything before it is content."""
+    if not word or word[0][0] != 'N' or word[0][1] not in INNER_KINDS:
+        return None
+    d = word[0][1]
+    for k in range(1, len(word) - 1):
+        if word[k] == ('N', d) and word[k + 1] == ('N', ']'):
+            return INNER_KINDS[d], ''.join(c for _, c in word[1:k]), tuple(word[k + 2:])
+    return None
+
+
+def _inner_words():
+    """Inputs (after the `[`): for each opener, all words up to length 7 over {opener, `]`, other} and up to length 4 over
+    that alphabet plus the quoted forms and another opener; a few inputs that do not start an inner expression."""
+    import itertools
+    for d in sorted(INNER_KINDS):
+        other = {'.': '=', '=': ':', ':': '.'}[d]
+        small = [('N', d), ('N', ']'), ('N', 'a')]
+        big = small + [('L', d), ('L', ']'), ('N', other)]
+        seen = set()
+        for alpha, maxlen in ((small, 7), (big, 4)):
+            for n in range(maxlen + 1):
+                for w in itertools.product(alpha, repeat=n):
+                    if w not in seen:
+                        seen.add(w)
+                        yield (('N', d),) + w
+        for first in (('L', d), ('N', 'a'), ('N', ']'), ('N', '[')):
+            for w in ((), (('N', d), ('N', ']')), (('N', 'a'), ('N', d), ('N', ']'))):
+                yield (first,) + w
+    yield ()
+
+
+def _show_word(w):
+    return ''.join(c if k == 'N' else '\\' + c for k, c in w)
+
+
+@RS.rule('C04.R8', 'K-TABLE', 'the scanner of `[.x.]` `[=x=]` `[:x:]` (BracketAtom::parse_inner), evaluated from its HIR on every short input over '
+         '{opener, `]`, other, quoted forms}, closes at the FIRST opener character followed by `]`, keeps every other character - the opener '
+         'included - as content, and leaves the iterator right after the closing `]`')
+def r8(cx):
+    F = cx.F
+    cands = [fn for fn in F.hir if fn.startswith(PARSE_MOD) and fn.endswith('::parse_inner') and 'BracketAtom' in fn]
+    cx.require(len(cands) == 1, 'BracketAtom::parse_inner not found in yash_fnmatch::ast::parse (%d candidates)' % len(cands))
+    entry = cands[0]
+    h = F.hir[entry]
+    cx.require(len(h['params']) == 1, 'parse_inner no longer takes exactly the character iterator')
+    cx.fn(entry)
+    loc = '%s:%d' % (h['file'], h['line'])
+    for v in INNER_KINDS.values():
+        cx.require(any(x['name'] == v for x in F.adt(BRACKET_ATOM)['variants']), 'BracketAtom::%s not found' % v)
+    bad = []
+    n = n_closed = 0
+    for w in _inner_words():
+        n += 1
+        want = _inner_reference(w)
+        it = _PcIter([_pc(k, c) for k, c in w])
+        r = _ScanInterp(F).call_fn(entry, [it])
+        if is_variant(r, OPT_NONE):
+            got = None
+        elif is_variant(r, OPT_SOME) and isinstance(r[2][0], tuple) and r[2][0][0] == 'T' and len(r[2][0][1]) == 2 \
+                and is_variant(r[2][0][1][0]) and isinstance(r[2][0][1][1], _PcIter) and len(r[2][0][1][0][2]) == 1 \
+                and isinstance(r[2][0][1][0][2][0], (list, str)) and r[2][0][1][0][1].startswith(BRACKET_ATOM + '::'):
+            atom, rest = r[2][0][1]
+            content = ''.join(atom[2][0])
+            got = atom[1].split('::')[-1], content, tuple(w[rest.pos:]) if rest.items is it.items else None
+            cx.require(got[2] is not None, 'parse_inner returns an iterator over other characters than its input')
+        else:
+            raise Undecidable('parse_inner returned %r' % (r,))
+        if want is not None:
+            n_closed += 1
+        if got != want:
+            bad.append((w, got, want))
+    cx.cellcount(n)
+    cx.site('%s evaluated on %d inputs (%d of them closed by the reference): openers . = : x words over {opener, ], a} up to length 7 and '
+            'over {opener, ], a, \\opener, \\], other opener} up to length 4' % (entry.replace(PARSE_MOD, ''), n, n_closed))
+    cx.require(n_closed >= 100, 'the reference closes only %d inputs (the evaluation exercises nothing)' % n_closed)
+
+    def show(res):
+        if res is None:
+            return 'no inner expression (the `[` is an ordinary character)'
+        return '%s(%r) with %r left to parse' % (res[0], res[1], _show_word(res[2]))
+    if bad:
+        bad.sort(key=lambda b: (len(b[0]), _show_word(b[0])))
+        w, got, want = bad[0]
+        cx.violation(entry, 'diverges:[%s' % _show_word(w),
+                     'for the pattern text `[[%s` (characters after the first `[`: %s) the scanner yields %s; POSIX (XBD 9.3.5: the '
+                     'expression ends at the first opener character followed by `]`) gives %s. E.g. `[[...]]` must be the collating '
+                     'symbol of the period and `[[=a==]]` the class of `a=`; a scanner that swallows the character after a non-closing '
+                     'delimiter turns them into an ordinary `[` list followed by a literal `]` (%d of %d inputs diverge)'
+                     % (_show_word(w), ', '.join(('unquoted ' if k == 'N' else 'quoted ') + c for k, c in w) or 'none', show(got), show(want),
+                        len(bad), n), loc=loc)
+    cx.sample({'inputs': n, 'closed': n_closed, 'diverging': len(bad)})
+
+
+RS.explanation += (' The scanner of [. .] [= =] [: :] is evaluated on all short inputs and closes at the first delimiter followed by `]` (R8).')
